@@ -4,12 +4,15 @@ import RV.Proofs.CacheTTLLive
 
 `ClearInv`: `Clear` has emptied the store when it resets the index (needs the stop/done handshake:
 the applier is not running meanwhile).  `RegInv lo`: every stored entry with `exp ≠ zeroTime` is
-registered in bucket `bucketOf exp` with its conflict, or that bucket has been grabbed by the running
+registered with its conflict in a bucket `b'` that is still ahead of the sweep (`lastCleaned < b'`;
+`b'` is `bucketOf exp`, or `lastCleaned + 1` when the entry arrived after its own bucket had been
+cleaned up — the repair of finding F6), or that bucket has been grabbed by the running
 sweep, which still has the key to do (`Grabbed`), or (`Lost`) a sweep whose clock read `now` covered
 the bucket skipped the key because `now < exp` — which is arithmetically impossible for sane times
 (`lost_impossible`).  `lo` is the clock at which the cache was created.
-Note that "registered" does not mean "will be swept": an insert applied after its bucket was swept is
-registered in a bucket `≤ lastCleaned` that no later sweep visits (finding F6).
+The statement is existential in the bucket, so it tolerates stale index entries (`Em.del`/`Em.update`
+look the key up under `bucketOf oldExp` and may leave the key behind in a clamped bucket; the sweep's
+`DelExpired` re-checks).
 -/
 namespace RV.Cache
 open Gen.Cache
@@ -477,8 +480,11 @@ theorem clearInv_reach {cfg : Cfg} {s : State} (h : Reach cfg s) : ClearInv s :=
 def RegAt (bk : AMap Int (AMap Hash Conf)) (b : Int) (k : Hash) (c : Conf) : Prop :=
   ∃ m, bk.lookup b = some m ∧ m.lookup k = some c
 
-/-- the entry is registered in the bucket of its expiration, with its conflict -/
-def Registered (em : Em) (k : Hash) (e : Entry) : Prop := RegAt em.buckets (bucketOf e.exp) k e.conflict
+/-- the entry is registered with its conflict in a bucket `b'` that the sweep has not reached yet:
+the bucket of its expiration, or the next one to be cleaned up (late arrival) -/
+def Registered (em : Em) (k : Hash) (e : Entry) : Prop :=
+  ∃ b', em.lastCleaned < b' ∧ bucketOf e.exp ≤ b' ∧ BucketOk b' ∧
+    (b' = bucketOf e.exp ∨ b' = em.lastCleaned + 1) ∧ RegAt em.buckets b' k e.conflict
 
 theorem regAt_insert_self {bk : AMap Int (AMap Hash Conf)} {b : Int} {k : Hash} {c : Conf} :
     RegAt (bk.insert b (((bk.lookup b).getD AMap.empty).insert k c)) b k c :=
@@ -506,8 +512,16 @@ theorem regAt_erase_other {bk : AMap Int (AMap Hash Conf)} {b0 b' : Int} {k k' :
     · exact ⟨m, by rw [AMap.lookup_insert_ne _ _ hb]; exact h1, h2⟩
   · exact ⟨m, h1, h2⟩
 
+theorem em_update_lc (em : Em) (k : Hash) (c : Conf) (old new : Time) :
+    (em.update k c old new).lastCleaned = em.lastCleaned := by
+  unfold Em.update; dsimp only; split <;> rfl
+theorem em_add_lc (em : Em) (k : Hash) (c : Conf) (exp : Time) : (em.add k c exp).lastCleaned = em.lastCleaned := by
+  unfold Em.add; split <;> rfl
+theorem em_del_lc (em : Em) (k : Hash) (exp : Time) : (em.del k exp).lastCleaned = em.lastCleaned := by
+  unfold Em.del; dsimp only; split <;> rfl
+
 theorem em_update_self {em : Em} {k : Hash} {c : Conf} {old new : Time} (hn : new ≠ Gen.zeroTime) :
-    RegAt (em.update k c old new).buckets (bucketOf new) k c := by
+    RegAt (em.update k c old new).buckets (updateBucket em new) k c := by
   unfold Em.update
   simp only [emUpdateSkip, beq_iff_eq, hn, if_false]
   exact regAt_insert_self
@@ -521,7 +535,7 @@ theorem em_update_other {em : Em} {k k' : Hash} {c c' : Conf} {old new : Time} {
   · exact regAt_insert_other hne (regAt_erase_other hne h)
 
 theorem em_add_self {em : Em} {k : Hash} {c : Conf} {exp : Time} (hn : exp ≠ Gen.zeroTime) :
-    RegAt (em.add k c exp).buckets (bucketOf exp) k c := by
+    RegAt (em.add k c exp).buckets (addBucket em exp) k c := by
   unfold Em.add
   simp only [emAddSkip, beq_iff_eq, hn, if_false]
   exact regAt_insert_self
@@ -540,6 +554,23 @@ theorem em_del_other {em : Em} {k k' : Hash} {c' : Conf} {exp : Time} {b' : Int}
   dsimp only
   split <;> rename_i hm <;> simp only [hm] at this <;> exact this
 
+/-- a registration survives an index operation on another key (same `lastCleaned`) -/
+theorem Registered.other {em em' : Em} {k : Hash} {e : Entry} (hlc : em'.lastCleaned = em.lastCleaned)
+    (hreg : ∀ b', RegAt em.buckets b' k e.conflict → RegAt em'.buckets b' k e.conflict)
+    (h : Registered em k e) : Registered em' k e := by
+  obtain ⟨b', h1, h2, h3, h4, h5⟩ := h
+  exact ⟨b', by rw [hlc]; exact h1, h2, h3, by rw [hlc]; exact h4, hreg b' h5⟩
+
+theorem Registered.update_self {em : Em} {k : Hash} {c : Conf} {v : Val} {old new : Time} (hlc : LcOk em.lastCleaned)
+    (hn : new ≠ Gen.zeroTime) : Registered (em.update k c old new) k ⟨c, v, new⟩ := by
+  obtain ⟨h1, h2, h3, h4⟩ := updateBucket_spec (em := em) (exp := new) hlc
+  exact ⟨updateBucket em new, by rw [em_update_lc]; exact h1, h2, h3, by rw [em_update_lc]; exact h4, em_update_self hn⟩
+
+theorem Registered.add_self {em : Em} {k : Hash} {c : Conf} {v : Val} {exp : Time} (hlc : LcOk em.lastCleaned)
+    (hn : exp ≠ Gen.zeroTime) : Registered (em.add k c exp) k ⟨c, v, exp⟩ := by
+  obtain ⟨h1, h2, h3, h4⟩ := addBucket_spec (em := em) (exp := exp) hlc
+  exact ⟨addBucket em exp, by rw [em_add_lc]; exact h1, h2, h3, by rw [em_add_lc]; exact h4, em_add_self hn⟩
+
 /-- how the entries with a TTL of `(st', em')` relate to `(st, em)`: freshly registered, or
 unchanged with their registration kept -/
 def Transfer (st : Store) (em : Em) (st' : Store) (em' : Em) : Prop :=
@@ -552,7 +583,40 @@ theorem Transfer.refl (st : Store) (em : Em) : Transfer st em st em :=
 theorem Transfer.of_sub {st st' : Store} {em : Em} (h : ∀ k e, st'.lookup k = some e → st.lookup k = some e) :
     Transfer st em st' em := fun k e hl _ => Or.inr ⟨h k e hl, id⟩
 
-theorem storeUpdate_transfer (cfg : Cfg) (st : Store) (em : Em) (i : Item) :
+theorem storeUpdate_lc (cfg : Cfg) (st : Store) (em : Em) (i : Item) :
+    (storeUpdate cfg st em i).2.1.lastCleaned = em.lastCleaned := by
+  unfold storeUpdate
+  split
+  · rfl
+  · split
+    · rfl
+    · dsimp only; split
+      · rfl
+      · exact em_update_lc ..
+
+theorem storeSet_lc (cfg : Cfg) (st : Store) (em : Em) (i : Item) :
+    (storeSet cfg st em i).2.lastCleaned = em.lastCleaned := by
+  unfold storeSet
+  split
+  · split
+    · rfl
+    · dsimp only; split
+      · rfl
+      · exact em_update_lc ..
+  · exact em_add_lc ..
+
+theorem storeDel_lc (st : Store) (em : Em) (k : Hash) (c : Conf) :
+    (storeDel st em k c).2.1.lastCleaned = em.lastCleaned := by
+  unfold storeDel
+  split
+  · rfl
+  · split
+    · rfl
+    · dsimp only; split
+      · exact em_del_lc ..
+      · rfl
+
+theorem storeUpdate_transfer (cfg : Cfg) (st : Store) (em : Em) (i : Item) (hlc : LcOk em.lastCleaned) :
     Transfer st em (storeUpdate cfg st em i).1 (storeUpdate cfg st em i).2.1 := by
   intro k e hl hz
   cases h0 : st.lookup i.key with
@@ -567,11 +631,11 @@ theorem storeUpdate_transfer (cfg : Cfg) (st : Store) (em : Em) (i : Item) :
         split at hl
         · rename_i hk
           simp only [Option.some.injEq] at hl; subst hl; subst hk
-          exact Or.inl (em_update_self hz)
+          exact Or.inl (Registered.update_self hlc hz)
         · rename_i hk
-          exact Or.inr ⟨hl, fun hr => em_update_other hk hr⟩
+          exact Or.inr ⟨hl, Registered.other (em_update_lc ..) fun b' hr => em_update_other hk hr⟩
 
-theorem storeSet_transfer (cfg : Cfg) (st : Store) (em : Em) (i : Item) :
+theorem storeSet_transfer (cfg : Cfg) (st : Store) (em : Em) (i : Item) (hlc : LcOk em.lastCleaned) :
     Transfer st em (storeSet cfg st em i).1 (storeSet cfg st em i).2 := by
   intro k e hl hz
   cases h0 : st.lookup i.key with
@@ -581,9 +645,9 @@ theorem storeSet_transfer (cfg : Cfg) (st : Store) (em : Em) (i : Item) :
     split at hl
     · rename_i hk
       simp only [Option.some.injEq] at hl; subst hl; subst hk
-      exact Or.inl (em_add_self hz)
+      exact Or.inl (Registered.add_self hlc hz)
     · rename_i hk
-      exact Or.inr ⟨hl, fun hr => em_add_other hk hr⟩
+      exact Or.inr ⟨hl, Registered.other (em_add_lc ..) fun b' hr => em_add_other hk hr⟩
   | some e0 =>
     by_cases h1 : setConflictMismatch i.conflict e0.conflict = true
     · simp only [storeSet, h0, h1, if_true] at hl ⊢; exact Or.inr ⟨hl, id⟩
@@ -594,9 +658,9 @@ theorem storeSet_transfer (cfg : Cfg) (st : Store) (em : Em) (i : Item) :
         split at hl
         · rename_i hk
           simp only [Option.some.injEq] at hl; subst hl; subst hk
-          exact Or.inl (em_update_self hz)
+          exact Or.inl (Registered.update_self hlc hz)
         · rename_i hk
-          exact Or.inr ⟨hl, fun hr => em_update_other hk hr⟩
+          exact Or.inr ⟨hl, Registered.other (em_update_lc ..) fun b' hr => em_update_other hk hr⟩
 
 theorem storeDel_transfer (st : Store) (em : Em) (k0 : Hash) (c : Conf) :
     Transfer st em (storeDel st em k0 c).1 (storeDel st em k0 c).2.1 := by
@@ -613,7 +677,7 @@ theorem storeDel_transfer (st : Store) (em : Em) (k0 : Hash) (c : Conf) :
       · rename_i hk
         refine Or.inr ⟨hl, fun hr => ?_⟩
         split
-        · exact em_del_other hk hr
+        · exact Registered.other (em_del_lc ..) (fun b' hr => em_del_other hk hr) hr
         · exact hr
 
 /-! ### the invariant -/
@@ -635,14 +699,32 @@ an expiration that lies after `now` -/
 def Lost (lo : Time) (s : State) (e : Entry) : Prop :=
   ∃ now, lo ≤ now ∧ now ≤ s.clock ∧ bucketOf e.exp ≤ cleanupOf now ∧ now < e.exp
 
-def RegInv (lo : Time) (s : State) : Prop :=
-  lo ≤ s.clock ∧ ∀ k e, s.store.lookup k = some e → e.exp ≠ Gen.zeroTime →
+/-- what is known in a state whose clock is sane: `lastCleaned` is the cleanup bucket of an earlier clock
+read, and every stored entry with a TTL is registered ahead of the sweep, or held by the running sweep -/
+def RegBody (lo : Time) (s : State) : Prop :=
+  (∃ now0, lo ≤ now0 ∧ now0 ≤ s.clock ∧ s.em.lastCleaned = cleanupOf now0) ∧
+  ∀ k e, s.store.lookup k = some e → e.exp ≠ Gen.zeroTime →
     Registered s.em k e ∨ Grabbed lo s k e ∨ Lost lo s e
 
-theorem regInv_of {lo : Time} {s s' : State} (h : RegInv lo s) (hclk : s.clock ≤ s'.clock)
+def RegInv (lo : Time) (s : State) : Prop := lo ≤ s.clock ∧ (TimeOk s.clock → RegBody lo s)
+
+theorem timeOk_between {lo t hi : Time} (hlo : TimeOk lo) (hhi : TimeOk hi) (h1 : lo ≤ t) (h2 : t ≤ hi) : TimeOk t := by
+  unfold TimeOk at *
+  simp only [Time] at *
+  omega
+
+theorem RegBody.lcOk {lo : Time} {s : State} (hlo : TimeOk lo) (hclk : TimeOk s.clock) (h : RegBody lo s) :
+    LcOk s.em.lastCleaned := by
+  obtain ⟨now0, a, b, c⟩ := h.1
+  rw [c]; exact cleanupOf_lcOk (timeOk_between hlo hclk a b)
+
+theorem regBody_of {lo : Time} {s s' : State} (h : RegBody lo s) (hclk : s.clock ≤ s'.clock)
+    (hlc : s'.em.lastCleaned = s.em.lastCleaned)
     (ht : Transfer s.store s.em s'.store s'.em)
-    (happ : ∀ k c now, Todo k c now s.app → Todo k c now s'.app) : RegInv lo s' := by
-  refine ⟨Int.le_trans h.1 hclk, fun k e hl hz => ?_⟩
+    (happ : ∀ k c now, Todo k c now s.app → Todo k c now s'.app) : RegBody lo s' := by
+  refine ⟨?_, fun k e hl hz => ?_⟩
+  · obtain ⟨now0, a, b, c⟩ := h.1
+    exact ⟨now0, a, Int.le_trans b hclk, by rw [hlc]; exact c⟩
   rcases ht k e hl hz with hr | ⟨hl0, hr⟩
   · exact Or.inl hr
   · rcases h.2 k e hl0 hz with h1 | ⟨now, a, b, c, d⟩ | ⟨now, a, b, c, d⟩
@@ -671,112 +753,133 @@ theorem apSwKey_deletes {s : State} {now : Time} {k : Hash} {c : Conf} {bs : Lis
   unfold apSwKey
   simp [storeDelExpired, hl, h1, h2]
 
-theorem inRange_le {lc : Int} {now exp : Time} (h : inRange lc (cleanupOf now) (bucketOf exp) = true) :
-    bucketOf exp ≤ cleanupOf now := by
-  unfold inRange at h
-  rw [Bool.and_eq_true] at h
-  have h2 := h.2
-  unfold sweepLoopCond bucketOf cleanupOf at h2
-  rw [BitVec.ofInt_toInt, BitVec.ofInt_toInt, BitVec.sle_iff_toInt_le] at h2
-  exact h2
-
-theorem regInv_clientStep {cfg : Cfg} {lo : Time} {s s' : State} {t : Tid} {ch : Choice} (hh : Handshake s)
-    (hc : ClearInv s) (h : RegInv lo s) (hs : clientStep cfg s t ch = some s') : RegInv lo s' := by
+theorem regBody_clientStep {cfg : Cfg} {lo : Time} {s s' : State} {t : Tid} {ch : Choice} (hh : Handshake s)
+    (hc : ClearInv s) (hlo : TimeOk lo) (hok : TimeOk s.clock) (hlow : lo ≤ s.clock) (h : RegBody lo s)
+    (hs : clientStep cfg s t ch = some s') : RegBody lo s' := by
   have hclk : s.clock ≤ s'.clock := by rw [clientStep_clock hs]; exact Int.le_refl _
+  have hlcok := h.lcOk hlo hok
   have happ : ∀ k c now, Todo k c now s.app → Todo k c now s'.app := by
     intro k c now htd
     rcases clientStep_app' (cfg := cfg) hs with e | hb
     · rw [e]; exact htd
     · rw [hh.busy t hb] at htd; exact absurd htd todo_dead
-  refine regInv_of h hclk ?_ happ
   cases clientStep_se (cfg := cfg) hs with
-  | same h1 h2 => rw [h1, h2]; exact Transfer.refl _ _
-  | upd i _ h1 h2 => rw [h1, h2]; exact storeUpdate_transfer _ _ _ _
-  | del hh' c _ h1 h2 => rw [h1, h2]; exact storeDel_transfer _ _ _ _
-  | clr closing k ks _ _ _ h1 h2 => rw [h1, h2]; exact Transfer.of_sub fun k e hl => eraseAll_lookup hl
-  | emClear closing hpc h1 _ =>
-    intro k e hl _
+  | same h1 h2 => exact regBody_of h hclk (by rw [h2]) (by rw [h1, h2]; exact Transfer.refl _ _) happ
+  | upd i _ h1 h2 =>
+    exact regBody_of h hclk (by rw [h2]; exact storeUpdate_lc ..) (by rw [h1, h2]; exact storeUpdate_transfer _ _ _ _ hlcok) happ
+  | del hh' c _ h1 h2 =>
+    exact regBody_of h hclk (by rw [h2]; exact storeDel_lc ..) (by rw [h1, h2]; exact storeDel_transfer _ _ _ _) happ
+  | clr closing k ks _ _ _ h1 h2 =>
+    exact regBody_of h hclk (by rw [h2]) (by rw [h1, h2]; exact Transfer.of_sub fun k e hl => eraseAll_lookup hl) happ
+  | emClear closing hpc h1 h2 =>
+    refine ⟨⟨s.clock, hlow, hclk, by rw [h2]; rfl⟩, fun k e hl _ => ?_⟩
     rw [h1, hc.em t closing hpc k] at hl; cases hl
 
-theorem regInv_applierStep {cfg : Cfg} {lo : Time} {s s' : State} {ch : Choice}
-    (h : RegInv lo s) (hs : applierStep cfg s ch = some s') : RegInv lo s' := by
+theorem regBody_applierStep {cfg : Cfg} {lo : Time} {s s' : State} {ch : Choice}
+    (hlo : TimeOk lo) (hok : TimeOk s.clock) (hlow : lo ≤ s.clock)
+    (h : RegBody lo s) (hs : applierStep cfg s ch = some s') : RegBody lo s' := by
   have hclk : s.clock ≤ s'.clock := by rw [applierStep_clock hs]; exact Int.le_refl _
+  have hlcok := h.lcOk hlo hok
   revert hclk
-  apply applierStep_cases hs (motive := fun s' => s.clock ≤ s'.clock → RegInv lo s')
+  apply applierStep_cases hs (motive := fun s' => s.clock ≤ s'.clock → RegBody lo s')
   case idle =>
     intro hpc hr hclk
-    refine regInv_of h hclk ?_ (by intro k c now htd; rw [hpc] at htd; simp [Todo] at htd)
-    unfold apIdle at hr
-    split at hr
-    · unfold apSelItem at hr
+    have hse : s'.store = s.store ∧ s'.em = s.em := by
+      unfold apIdle at hr
       split at hr
+      · unfold apSelItem at hr
+        split at hr
+        · simp at hr
+        · rename_i id s1 hrecv; simp only [Option.some.injEq] at hr; subst hr
+          exact ⟨(recvBuf_store hrecv : s1.store = s.store), (recvBuf_em hrecv : s1.em = s.em)⟩
+        · rename_i i s1 hrecv; simp only [Option.some.injEq] at hr; subst hr
+          exact ⟨(recvBuf_store hrecv : s1.store = s.store), (recvBuf_em hrecv : s1.em = s.em)⟩
+      · simp only [Option.some.injEq] at hr; subst hr; exact ⟨rfl, rfl⟩
+      · exact ⟨apSelStop_store _ _ hr, apSelStop_em _ _ hr⟩
       · simp at hr
-      · rename_i hrecv; simp only [Option.some.injEq] at hr; subst hr
-        simp only [recvBuf_store hrecv, recvBuf_em hrecv]; exact Transfer.refl _ _
-      · rename_i hrecv; simp only [Option.some.injEq] at hr; subst hr
-        simp only [recvBuf_store hrecv, recvBuf_em hrecv]; exact Transfer.refl _ _
-    · simp only [Option.some.injEq] at hr; subst hr; exact Transfer.refl _ _
-    · rw [apSelStop_store _ _ hr, apSelStop_em _ _ hr]; exact Transfer.refl _ _
-    · simp at hr
+    exact regBody_of h hclk (by rw [hse.2]) (by rw [hse.1, hse.2]; exact Transfer.refl _ _)
+      (by intro k c now htd; rw [hpc] at htd; simp [Todo] at htd)
   case marker =>
     intro id hpc _ hclk
-    exact regInv_of h hclk (Transfer.refl _ _) (by intro k c now htd; rw [hpc] at htd; simp [Todo] at htd)
+    exact regBody_of h hclk rfl (Transfer.refl _ _) (by intro k c now htd; rw [hpc] at htd; simp [Todo] at htd)
   case item =>
     intro i hpc _ hclk
-    exact regInv_of h hclk (Transfer.refl _ _) (by intro k c now htd; rw [hpc] at htd; simp [Todo] at htd)
+    exact regBody_of h hclk rfl (Transfer.refl _ _) (by intro k c now htd; rw [hpc] at htd; simp [Todo] at htd)
   case costed =>
     intro i hpc hr hclk
-    refine regInv_of h hclk ?_ (by intro k c now htd; rw [hpc] at htd; simp [Todo] at htd)
-    unfold apCosted at hr
-    split at hr
-    · rw [apCostedNew_store _ _ _ _ hr, apCostedNew_em _ _ _ _ hr]; exact Transfer.refl _ _
-    · obtain ⟨_, hr⟩ := needNone_some hr
-      simp only [Option.some.injEq] at hr; subst hr; exact Transfer.refl _ _
-    · obtain ⟨_, hr⟩ := needNone_some hr
-      simp only [Option.some.injEq] at hr; subst hr; exact Transfer.refl _ _
+    have hse : s'.store = s.store ∧ s'.em = s.em := by
+      unfold apCosted at hr
+      split at hr
+      · exact ⟨apCostedNew_store _ _ _ _ hr, apCostedNew_em _ _ _ _ hr⟩
+      · obtain ⟨_, hr⟩ := needNone_some hr
+        simp only [Option.some.injEq] at hr; subst hr; exact ⟨rfl, rfl⟩
+      · obtain ⟨_, hr⟩ := needNone_some hr
+        simp only [Option.some.injEq] at hr; subst hr; exact ⟨rfl, rfl⟩
+    exact regBody_of h hclk (by rw [hse.2]) (by rw [hse.1, hse.2]; exact Transfer.refl _ _)
+      (by intro k c now htd; rw [hpc] at htd; simp [Todo] at htd)
   case added =>
     intro i victims ok hpc _ hclk
-    refine regInv_of h hclk ?_ (by intro k c now htd; rw [hpc] at htd; simp [Todo] at htd)
-    unfold apAdded
-    split
-    · simp only [metAdd_store, metAdd_em]; exact storeSet_transfer _ _ _ _
-    · exact Transfer.refl _ _
+    refine regBody_of h hclk ?_ ?_ (by intro k c now htd; rw [hpc] at htd; simp [Todo] at htd)
+    · unfold apAdded
+      split
+      · simp only [metAdd_em]; exact storeSet_lc ..
+      · rfl
+    · unfold apAdded
+      split
+      · simp only [metAdd_store, metAdd_em]; exact storeSet_transfer _ _ _ _ hlcok
+      · exact Transfer.refl _ _
   case victims =>
     intro vs hpc _ hr hclk
-    refine regInv_of h hclk ?_ (by intro k c now htd; rw [hpc] at htd; simp [Todo] at htd)
     unfold apVictims at hr
     split at hr
     · simp at hr
-    · simp only [Option.some.injEq] at hr; subst hr; exact storeDel_transfer _ _ _ _
+    · simp only [Option.some.injEq] at hr; subst hr
+      exact regBody_of h hclk (storeDel_lc ..) (storeDel_transfer _ _ _ _)
+        (by intro k c now htd; rw [hpc] at htd; simp [Todo] at htd)
   case victimEvict =>
     intro hh cost c v rest hpc _ hclk
-    exact regInv_of h hclk (by simp only [apVictimEvict_store, apVictimEvict_em]; exact Transfer.refl _ _)
+    exact regBody_of h hclk (by rw [apVictimEvict_em])
+      (by simp only [apVictimEvict_store, apVictimEvict_em]; exact Transfer.refl _ _)
       (by intro k c now htd; rw [hpc] at htd; simp [Todo] at htd)
   case tombPolicy =>
     intro i hpc _ hclk
-    exact regInv_of h hclk (storeDel_transfer _ _ _ _) (by intro k c now htd; rw [hpc] at htd; simp [Todo] at htd)
+    exact regBody_of h hclk (storeDel_lc ..) (storeDel_transfer _ _ _ _)
+      (by intro k c now htd; rw [hpc] at htd; simp [Todo] at htd)
   case tombStore =>
     intro v hpc _ hclk
-    exact regInv_of h hclk (Transfer.refl _ _) (by intro k c now htd; rw [hpc] at htd; simp [Todo] at htd)
+    exact regBody_of h hclk rfl (Transfer.refl _ _) (by intro k c now htd; rw [hpc] at htd; simp [Todo] at htd)
   case tick =>
     intro hpc _ hclk
-    refine ⟨h.1, fun k e hl hz => ?_⟩
+    obtain ⟨now0, n1, n2, n3⟩ := h.1
+    have hmono : s.em.lastCleaned ≤ cleanupOf s.clock := by
+      rw [n3]; exact cleanupOf_mono (timeOk_between hlo hok n1 n2) hok n2
+    refine ⟨⟨s.clock, hlow, Int.le_refl _, rfl⟩, fun k e hl hz => ?_⟩
     have hl0 : s.store.lookup k = some e := hl
-    rcases h.2 k e hl0 hz with ⟨m, h1, h2⟩ | ⟨now, _, _, _, d⟩ | ⟨now, a, b, c, d⟩
-    · cases hin : inRange s.em.lastCleaned (cleanupOf s.clock) (bucketOf e.exp) with
+    rcases h.2 k e hl0 hz with ⟨b', h1, h2, h3, h4, m, h5, h6⟩ | ⟨now, _, _, _, d⟩ | ⟨now, a, b, c, d⟩
+    · cases hin : inRange s.em.lastCleaned (cleanupOf s.clock) b' with
       | true =>
-        obtain ⟨hmem, _⟩ := grab_hit h1 hin
-        exact Or.inr (Or.inl ⟨s.clock, h.1, Int.le_refl _, inRange_le hin,
-          (show Todo k e.conflict s.clock (.sweep s.clock (s.em.grab s.clock).2) from ⟨rfl, m, hmem, h2⟩)⟩)
+        obtain ⟨hmem, _⟩ := grab_hit h5 hin
+        have hle := ((inRange_iff hlcok h3 (cleanupOf_ok s.clock)).mp hin).2
+        exact Or.inr (Or.inl ⟨s.clock, hlow, Int.le_refl _, Int.le_trans h2 hle,
+          (show Todo k e.conflict s.clock (.sweep s.clock (s.em.grab s.clock).2) from ⟨rfl, m, hmem, h6⟩)⟩)
       | false =>
-        refine Or.inl ⟨m, ?_, h2⟩
-        show (s.em.grab s.clock).1.buckets.lookup (bucketOf e.exp) = some m
-        rw [grab_miss hin]; exact h1
+        have hnot : ¬ (s.em.lastCleaned < b' ∧ b' ≤ cleanupOf s.clock) := by
+          rw [← inRange_iff hlcok h3 (cleanupOf_ok s.clock), hin]; simp
+        have hgt : cleanupOf s.clock < b' := by omega
+        refine Or.inl ⟨b', hgt, h2, h3, ?_, m, ?_, h6⟩
+        · rcases h4 with h4 | h4
+          · exact Or.inl h4
+          · refine Or.inr ?_
+            show b' = cleanupOf s.clock + 1
+            omega
+        · show (s.em.grab s.clock).1.buckets.lookup b' = some m
+          rw [grab_miss hin]; exact h5
     · rw [hpc] at d; simp [Todo] at d
     · exact Or.inr (Or.inr ⟨now, a, b, c, d⟩)
   case sweep =>
     intro now bs hpc hr hclk
-    refine regInv_of h hclk (by rw [apSweep_store _ _ _ _ hr, apSweep_em _ _ _ _ hr]; exact Transfer.refl _ _) ?_
+    refine regBody_of h hclk (by rw [apSweep_em _ _ _ _ hr])
+      (by rw [apSweep_store _ _ _ _ hr, apSweep_em _ _ _ _ hr]; exact Transfer.refl _ _) ?_
     intro k c now' htd
     rw [hpc] at htd
     obtain ⟨rfl, m, hm, hk⟩ := htd
@@ -805,9 +908,11 @@ theorem regInv_applierStep {cfg : Cfg} {lo : Time} {s s' : State} {ch : Choice}
       | _ => simp [apSweep, hfe] at hr
   case swKey =>
     intro now k c bs hpc _ hclk
+    obtain ⟨now0, n1, n2, n3⟩ := h.1
     rcases apSwKey_cases s now k c bs with ⟨e0, hl0, _, _, _, heq⟩ | heq
     · -- the entry of `k` was removed
-      refine ⟨Int.le_trans h.1 hclk, fun k' e' hl' hz' => ?_⟩
+      refine ⟨⟨now0, n1, Int.le_trans n2 hclk, by rw [heq]; show (s.em.del k e0.exp).lastCleaned = _; rw [em_del_lc]; exact n3⟩,
+        fun k' e' hl' hz' => ?_⟩
       rw [heq] at hl' ⊢
       have hl'' : AMap.lookup (AMap.erase s.store k) k' = some e' := hl'
       rw [AMap.lookup_erase] at hl''
@@ -815,7 +920,7 @@ theorem regInv_applierStep {cfg : Cfg} {lo : Time} {s s' : State} {ch : Choice}
       · cases hl''
       · rename_i hne
         rcases h.2 k' e' hl'' hz' with h1 | ⟨now', a, b, c', d⟩ | ⟨now', a, b, c', d⟩
-        · exact Or.inl (em_del_other hne h1)
+        · exact Or.inl (Registered.other (em_del_lc ..) (fun b' hr => em_del_other hne hr) h1)
         · refine Or.inr (Or.inl ⟨now', a, b, c', ?_⟩)
           rw [hpc] at d
           obtain ⟨hnow, d⟩ := d
@@ -824,7 +929,7 @@ theorem regInv_applierStep {cfg : Cfg} {lo : Time} {s s' : State} {ch : Choice}
           · exact ⟨hnow, d⟩
         · exact Or.inr (Or.inr ⟨now', a, b, c', d⟩)
     · -- nothing was removed
-      refine ⟨Int.le_trans h.1 hclk, fun k' e' hl' hz' => ?_⟩
+      refine ⟨⟨now0, n1, Int.le_trans n2 hclk, by rw [heq]; exact n3⟩, fun k' e' hl' hz' => ?_⟩
       have happ' : (apSwKey s now k c bs).app = .sweep now bs := by rw [heq]
       rw [heq] at hl' ⊢
       have hl'' : s.store.lookup k' = some e' := hl'
@@ -851,26 +956,31 @@ theorem regInv_applierStep {cfg : Cfg} {lo : Time} {s s' : State} {ch : Choice}
       · exact Or.inr (Or.inr ⟨now', a, b, c', d⟩)
   case swStoreDel =>
     intro now k c expr v bs hpc _ hclk
-    refine regInv_of h hclk (Transfer.refl _ _) ?_
+    refine regBody_of h hclk rfl (Transfer.refl _ _) ?_
     intro k' c' now' htd; rw [hpc] at htd; simpa [apSwStoreDel, Todo] using htd
   case swPolDel =>
     intro now k c expr cost v bs hpc _ hclk
-    refine regInv_of h hclk (Transfer.refl _ _) ?_
+    refine regBody_of h hclk rfl (Transfer.refl _ _) ?_
     intro k' c' now' htd; rw [hpc] at htd; simpa [apSwPolDel, Todo] using htd
 
-theorem regInv_step {cfg : Cfg} {lo : Time} {s s' : State} {a : Action} (hr : Reach cfg s)
+theorem regInv_step {cfg : Cfg} {lo : Time} {s s' : State} {a : Action} (hlo : TimeOk lo) (hr : Reach cfg s)
     (h : RegInv lo s) (hs : step cfg s a = some s') : RegInv lo s' := by
   have hclk := step_clock_le hs
+  refine ⟨Int.le_trans h.1 hclk, fun hok' => ?_⟩
+  have hok : TimeOk s.clock := timeOk_between hlo hok' h.1 hclk
+  have hb := h.2 hok
   cases a with
   | spawn t c =>
     have hs' : spawnStep s t c = some s' := hs
-    exact regInv_of h hclk (by rw [spawnStep_store _ _ _ hs', spawnStep_em _ _ _ hs']; exact Transfer.refl _ _)
+    exact regBody_of hb hclk (by rw [spawnStep_em _ _ _ hs'])
+      (by rw [spawnStep_store _ _ _ hs', spawnStep_em _ _ _ hs']; exact Transfer.refl _ _)
       (by rw [spawnStep_app _ _ _ hs']; exact fun _ _ _ h => h)
-  | client t ch => exact regInv_clientStep (handshake_reach hr) (clearInv_reach hr) h hs
-  | applier ch => exact regInv_applierStep h hs
+  | client t ch => exact regBody_clientStep (handshake_reach hr) (clearInv_reach hr) hlo hok h.1 hb hs
+  | applier ch => exact regBody_applierStep hlo hok h.1 hb hs
   | done t =>
     have hs' : doneStep s t = some s' := hs
-    refine regInv_of h hclk (by rw [doneStep_store _ _ hs', doneStep_em _ _ hs']; exact Transfer.refl _ _) ?_
+    refine regBody_of hb hclk (by rw [doneStep_em _ _ hs'])
+      (by rw [doneStep_store _ _ hs', doneStep_em _ _ hs']; exact Transfer.refl _ _) ?_
     intro k c now htd
     unfold doneStep at hs'
     split at hs'
@@ -879,10 +989,10 @@ theorem regInv_step {cfg : Cfg} {lo : Time} {s s' : State} {a : Action} (hr : Re
     · simp at hs'
   | tick d =>
     simp only [step, Option.some.injEq] at hs; subst hs
-    exact regInv_of h hclk (Transfer.refl _ _) (fun _ _ _ h => h)
+    exact regBody_of hb hclk rfl (Transfer.refl _ _) (fun _ _ _ h => h)
 
 theorem regInv_init (cfg : Cfg) (now0 : Time) : RegInv now0 (init cfg now0) :=
-  ⟨Int.le_refl _, fun k e hl _ => by simp [init] at hl⟩
+  ⟨Int.le_refl _, fun _ => ⟨⟨now0, Int.le_refl _, Int.le_refl _, rfl⟩, fun k e hl _ => by simp [init] at hl⟩⟩
 
 /-- induction along a run from a fixed initial state -/
 theorem run_induction {cfg : Cfg} {P : State → Prop} {s0 : State} (hr0 : Reach cfg s0) (h0 : P s0)
@@ -900,9 +1010,9 @@ theorem run_induction {cfg : Cfg} {P : State → Prop} {s0 : State} (hr0 : Reach
       simp only [hs] at hr
       exact ih (hr0.of_step hs) (hstep s0 a s1 hr0 h0 hs) s hr
 
-theorem regInv_run {cfg : Cfg} {now0 : Time} {acts : List Action} {s : State}
+theorem regInv_run {cfg : Cfg} {now0 : Time} {acts : List Action} {s : State} (h0 : TimeOk now0)
     (hrun : run cfg (init cfg now0) acts = some s) : RegInv now0 s :=
-  run_induction (Reach.of_init cfg now0) (regInv_init cfg now0) (fun _ _ _ hr hp hs => regInv_step hr hp hs) acts s hrun
+  run_induction (Reach.of_init cfg now0) (regInv_init cfg now0) (fun _ _ _ hr hp hs => regInv_step h0 hr hp hs) acts s hrun
 
 /-- a bucket covered by a sweep at `now` cannot hold an expiration after `now` -/
 theorem lost_impossible {lo : Time} {s : State} {e : Entry} (hlo : TimeOk lo) (hclk : TimeOk s.clock)
